@@ -562,6 +562,14 @@ def check_counter_capacity(ctx):
     if n == 0:
         raise AnalysisError('no vote counter with a chosen integer type '
                             'found in tally_votes')
+    # the per-type totals of aggregate_votes are sums of those counters
+    from ..rules.capacity import check_sum_capacity
+    fi = db.fn('type_assignment.election:aggregate_votes')
+    ctx.touch(fi)
+    if check_sum_capacity(ctx, fi) == 0:
+        ctx.ok('R-CAP/sum-capacity', f'{fi.qual}:fixed', fi.loc(),
+               'the aggregated vote totals are held in a fixed wide type',
+               nontrivial=False)
 
 
 def check_correlation_backfill(ctx):
